@@ -173,7 +173,9 @@ RangesOverlap(r, q) == r[1] < q[2] /\ q[1] < r[2]
 
 \* the rule rig documents: cores that are busy on every chip are reserved globally, the others per chip,
 \* each set of cores merged into maximal runs
-Runs(S) == { <<a, b>> \in (0..18) \X (0..18) : a < b /\ (a..b - 1) \subseteq S /\ (a - 1) \notin S /\ b \notin S }
+\* maximal runs of consecutive members of S, as half-open ranges <<first, last + 1>>
+Runs(S) == { ab \in S \X { i + 1 : i \in S } :
+               ab[1] < ab[2] /\ (ab[1]..ab[2] - 1) \subseteq S /\ (ab[1] - 1) \notin S /\ ab[2] \notin S }
 GlobalBusy(desc) == IF DOMAIN desc = {} THEN {} ELSE { i \in 0..17 : \A xy \in DOMAIN desc : i \in NonIdle(desc[xy]) }
 RuleReservations(desc) ==
     { <<r[1], r[2], <<>> >> : r \in Runs(GlobalBusy(desc)) } \cup
